@@ -15,8 +15,9 @@
 (*                                                                         *)
 (* TLC checks exhaustively that the three clauses hold in every state of     *)
 (* every history of at most MaxSteps replacements when DupFaces = FALSE       *)
-(* (the intended mechanism; invariant Laws), and that Laws fails when         *)
-(* DupFaces = TRUE (duplicated primary faces, see MortarMapsRef: vacuity).     *)
+(* (the code as it is; invariant Laws), and that Laws fails when              *)
+(* DupFaces = TRUE (duplicated primary faces, the mechanism before fix         *)
+(* d70d13e66, see MortarMapsRef: vacuity).                                     *)
 (* trace/T_MortarMaps.tla validates the transitions recorded from porepy      *)
 (* against these steps; trace/J_MortarMaps.tla judges the recorded matrices.  *)
 (***************************************************************************)
